@@ -361,6 +361,11 @@ func init() {
 		if r.Chance(0.15) {
 			cfg.DropP = 0.1 // loss: only the safety half is judged
 		}
+		if r.Chance(0.3) {
+			// handlers of one node run concurrently (as gRPC runs them) and may be preempted inside
+			cfg.PreemptP = []float64{0.05, 0.2, 0.5}[r.Intn(3)]
+			cfg.Spread = 1 + r.Intn(4)
+		}
 		if seed%6 == 0 {
 			cfg.K = 1 // dependent items in flight (separate scenario class)
 		}
